@@ -28,8 +28,9 @@ func c18Files(s zoekt.Searcher, q query.Q) []string {
 	return out
 }
 
-// H_C18_select: three real shards - a compound shard (r1..r3, branches main and dev), a simple shard
-// whose default branch is called HEAD and one whose default branch is called main - are pre-selected
+// H_C18_select: four real shards - a compound shard (r1..r3, branches main and dev), a simple shard
+// whose default branch is called HEAD and two shards of one repository whose default branch is called
+// main - are pre-selected
 // and the query rewritten by the real selectRepoSet for a query (and <repository selector> <content
 // atom>). For every shard: searching it with the rewritten query if it was selected (nothing if
 // it was not) gives exactly the files that searching it with the ORIGINAL query gives. The
@@ -37,7 +38,8 @@ func c18Files(s zoekt.Searcher, q query.Q) []string {
 // for are symbolic.
 func H_C18_select() {
 	verifrt.ClockConcrete()
-	searchers := []zoekt.Searcher{index.VerifThreeRepoSearcher(), index.VerifSimpleSearcher(4, "r4", "HEAD", "dev"), index.VerifSimpleSearcher(5, "r5", "main")}
+	// r5 is split over two shards (a repository larger than one shard)
+	searchers := []zoekt.Searcher{index.VerifThreeRepoSearcher(), index.VerifSimpleSearcher(4, "r4", "HEAD", "dev"), index.VerifSimpleSearcher(5, "r5", "main"), index.VerifSimpleSearcher(5, "r5", "main")}
 	var shards []*rankedShard
 	for _, s := range searchers {
 		shards = append(shards, mkRankedShard(s))
